@@ -679,6 +679,15 @@ func (w *termWorld) drawOnce() bool {
 			if in {
 				continue
 			}
+			if r >= w.winRow && r-w.winRow < len(snap.Cells) && rowReclusters(snap.Cells[r-w.winRow]) {
+				// neighbouring cells of this row hold graphemes which a
+				// clustering terminal joins when they are written next to
+				// each other (one ends in ZWJ, the next is an emoji; one
+				// starts with a combining mark ...): the row is shorter on
+				// the terminal than in any cell model. Terminal behaviour
+				// on text no cell-based renderer can represent
+				continue
+			}
 			if c == w.winCol-1 && r >= w.winRow && r-w.winRow < len(snap.Cells) && len(snap.Cells[r-w.winRow]) > 0 {
 				// the child put a lone combining character (Extend,
 				// SpacingMark, ZWJ ...) into the first column: a terminal
@@ -699,6 +708,31 @@ func (w *termWorld) drawOnce() bool {
 		}
 	}
 	return true
+}
+
+// rowReclusters reports whether the graphemes of a row, written one after the
+// other, would be segmented differently by a grapheme-clustering terminal.
+func rowReclusters(row []term.SimCell) bool {
+	var gs []string
+	for i := 0; i < len(row); i++ {
+		g := row[i].Grapheme
+		if g == "" {
+			g = " "
+		}
+		gs = append(gs, g)
+		if row[i].Width > 1 {
+			i += row[i].Width - 1
+		}
+	}
+	rest := strings.Join(gs, "")
+	for _, g := range gs {
+		var cl string
+		cl, rest, _, _ = uniseg.FirstGraphemeClusterInString(rest, -1)
+		if cl != g {
+			return true
+		}
+	}
+	return false
 }
 
 func (w *termWorld) drawLoop() {
